@@ -84,14 +84,14 @@ def verdict_checks(run, sc, out, label):
             attributed_to = msg
         if attributed_to is not None:
             prev = [world.effective(world.tag_of[ids[j]]) for j in range(i)]
-            cause = 'after-timeout' if any(p in ('worker_late_answer', 'worker_hang') for p in prev) else ('after-worker-death' if any(p in ('worker_exit', 'worker_abort') for p in prev) or sc.idle_kill else 'other')
+            cause = 'after-timeout' if any(p in ('worker_late_answer', 'worker_hang', 'worker_late_death') for p in prev) else ('after-worker-death' if any(p in ('worker_exit', 'worker_abort') for p in prev) or sc.idle_kill else 'other')
             run.violate('verdict_of_that_recording_alone', 'attributed-to-other-recording:%s' % cause,
                         '%s carries the replay / result of %s (verdict %s)' % (where, attributed_to, name))
             continue
         if name not in E.ALLOWED[b]:
             prev = [world.effective(world.tag_of[ids[j]]) for j in range(i)]
             if b in ('equal', 'slow', 'different', 'comparator_bare_status') and name == 'EqualizerFailure':
-                cause = 'after-timeout' if any(p in ('worker_late_answer', 'worker_hang') for p in prev) else ('after-worker-death' if any(p in ('worker_exit', 'worker_abort') for p in prev) or sc.idle_kill else 'other')
+                cause = 'after-timeout' if any(p in ('worker_late_answer', 'worker_hang', 'worker_late_death') for p in prev) else ('after-worker-death' if any(p in ('worker_exit', 'worker_abort') for p in prev) or sc.idle_kill else 'other')
                 if sc.idle_kill and cause == 'after-worker-death' and i == sc.idle_kill_at + 0 and False:
                     pass
                 run.violate('later_recordings_unaffected', 'healthy-recording-failed:%s' % cause,
@@ -103,7 +103,7 @@ def verdict_checks(run, sc, out, label):
     return verdicts
 
 
-WORKER_FAULTS = ['worker_late_answer', 'worker_hang', 'worker_exit', 'worker_abort']
+WORKER_FAULTS = ['worker_late_answer', 'worker_hang', 'worker_exit', 'worker_abort', 'worker_late_death']
 EPS = [0.0, -0.01, 0.01, 0.0005]
 
 
@@ -117,14 +117,14 @@ def _run(tape):
     if placed:
         sc.behaviours = ['equal'] * sc.n
         p = pos % sc.n
-        sc.behaviours[p] = WORKER_FAULTS[kind % 4]
+        sc.behaviours[p] = WORKER_FAULTS[kind % 5]
         sc.late_eps[p] = EPS[eps]
         if placed == 2:
-            sc.behaviours[(p + 1 + kind // 4) % sc.n] = WORKER_FAULTS[(kind + 1) % 4]
+            sc.behaviours[(p + 1 + kind // 5) % sc.n] = WORKER_FAULTS[(kind + 1) % 5]
         sc.idle_kill = False
-        sc.queue_delay = 0.0 if kind < 4 else sc.queue_delay
+        sc.queue_delay = 0.0 if kind < 5 else sc.queue_delay
         sc.consume = 'full'
-        if kind % 4 == 0:
+        if kind % 5 in (0, 4):
             # the race between the parent giving up and the late answer needs computation to cost time
             sc.jitter = 4
             sc.preempt = max(sc.preempt, 0.3)
@@ -176,11 +176,11 @@ def run_index(i, seed, tier, emit):
     emit(safe_run_tape(mod, t), t)
     # systematic placement on this seed's configuration: one worker fault at every position, every tie-break epsilon
     for pos in range(12):
-        for kind in range(4):
-            for eps in (range(len(EPS)) if kind == 0 else [0]):
+        for kind in range(5):
+            for eps in (range(len(EPS)) if kind in (0, 4) else [0]):
                 t = Tape(seed, prefix=[1, pos, kind, eps])
                 emit(safe_run_tape(mod, t), t)
     for pos in range(0, 12, 4):
-        for kind in range(8):
+        for kind in range(10):
             t = Tape(seed, prefix=[2, pos, kind, (pos + kind) % len(EPS)])
             emit(safe_run_tape(mod, t), t)
